@@ -12,7 +12,8 @@ from chameleon.tokenize import Token
 match_double_hyphen = re.compile(r'--(?!(-)*>)')
 match_tag_prefix_and_name = re.compile(
     r'^(?P<prefix></?)(?P<name>([^:\n\t\r ]+:)?[^ \n\t\r>/]+)'
-    r'(?P<suffix>(?P<space>\s*)/?>)?',
+    # (the closing part directly after the name only if the tag ends there)
+    r'(?P<suffix>(?P<space>\s*)/?>\Z)?',
     re.UNICODE | re.DOTALL)
 match_single_attribute = re.compile(
     r'(?P<space>\s+)(?!\d)'
